@@ -62,16 +62,17 @@ func (cp *Checkpoint) Destroy() error {
 }
 
 func (cp *Checkpoint) Document() checkpointDocument {
-	if len(cp.WALs) > 1 {
-		panic("should not serialize a checkpoint with multiple WALs")
-	}
 	doc := checkpointDocument{
 		ID:         cp.ID,
 		Levels:     cp.Levels.Document(),
 		LastSeqNum: cp.LastSeqNum,
 	}
-	if len(cp.WALs) == 1 {
-		doc.WALs = []wal.HandleDocument{cp.WALs[0].Document()}
+	// A checkpoint loaded from several checkpoint handles (the database was
+	// restored from more than one DKV instance) refers to the WAL of each of
+	// them. It stays in the checkpoint list until it is no longer retained, so it
+	// is written out with all of its WALs.
+	for _, h := range cp.WALs {
+		doc.WALs = append(doc.WALs, h.Document())
 	}
 
 	return doc
